@@ -164,13 +164,32 @@ MalformedRejected == \A s \in Shapes : ~WellFormed(s) => RecvOne(s, FALSE).res \
 WellFormedDelivered == \A s \in Shapes : WellFormed(s) => RecvOne(s, FALSE).res \in {"msg", "payload"}
 \* the table the conformance harness compares the real Listener with (pattern P3)
 ShapeSeq == SetToSeq(Shapes)
-Generate == JsonSerialize(IOEnv.CASES_FILE, [i \in 1..Len(ShapeSeq) |-> ShapeSeq[i]])
-Judge ==
+Generate == IF IOEnv.PASS # "shapes" THEN TRUE ELSE JsonSerialize(IOEnv.CASES_FILE, [i \in 1..Len(ShapeSeq) |-> ShapeSeq[i]])
+Judge == IF IOEnv.PASS # "shapesj" THEN TRUE ELSE
   LET cs == JsonDeserialize(IOEnv.CASES_FILE)
       rs == JsonDeserialize(IOEnv.RESULTS_FILE)     \* [shape, seen, ack, res] per (shape, seen)
   IN \A i \in DOMAIN rs :
        LET want == RecvOne(rs[i].shape, rs[i].seen /\ Len(rs[i].shape) > 0 /\ rs[i].shape[1] = "syn")
            bad == (IF rs[i].res = want.res THEN {} ELSE {"listener_outcome_" \o want.res \o "_got_" \o rs[i].res})
                \cup (IF rs[i].ack = want.ack THEN {} ELSE {"listener_ack"})
+       IN bad = {} \/ PrintT("B|" \o ToString(i) \o "|" \o ToString(bad))
+
+(***************************************************************************)
+(* Several senders into one Listener (the controller's listener hears      *)
+(* every executor and every data server; their idx counters all start at   *)
+(* 0).  A delivery is identified by (sender address, idx): the same idx    *)
+(* from another sender is another message.                                 *)
+(***************************************************************************)
+Senders == {"A", "B", "D"}
+Deliveries == UNION {[1..n -> Senders \X (0..1)] : n \in 0..4}
+ExpectedDelivered(seq) == SelectSeq([i \in 1..Len(seq) |-> IF \E j \in 1..(i - 1) : seq[j] = seq[i] THEN <<>> ELSE seq[i]],
+                                    LAMBDA e : e # <<>>)
+GenerateSenders == IF IOEnv.PASS # "senders" THEN TRUE ELSE JsonSerialize(IOEnv.CASES_FILE, SetToSeq(Deliveries))
+JudgeSenders == IF IOEnv.PASS # "sendersj" THEN TRUE ELSE
+  LET cs == JsonDeserialize(IOEnv.CASES_FILE)
+      rs == JsonDeserialize(IOEnv.RESULTS_FILE)     \* [delivered |-> <<<<sender, idx>>...>>, acks |-> <<<<sender, idx>>...>>]
+  IN \A i \in DOMAIN cs :
+       LET bad == (IF rs[i].delivered = ExpectedDelivered(cs[i]) THEN {} ELSE {"delivery_not_exactly_once_per_sender_and_idx"})
+              \cup (IF rs[i].acks = cs[i] THEN {} ELSE {"ack_not_sent_to_the_sender_with_its_idx"})
        IN bad = {} \/ PrintT("B|" \o ToString(i) \o "|" \o ToString(bad))
 =============================================================================
